@@ -1,0 +1,16 @@
+// Copyright (C) 2024 Storj Labs, Inc.
+// See LICENSE for copying information.
+
+//go:build verif
+// +build verif
+
+package drpcwire
+
+// VerifBufCap reports the capacities of the reader's internal buffers.
+func (r *Reader) VerifBufCap() int {
+	n := cap(r.buf)
+	if cap(r.curr) > n {
+		n = cap(r.curr)
+	}
+	return n
+}
